@@ -201,7 +201,18 @@ def gen_ops(r, inputs, timeout):
             sched = "." * r.randint(0, nb + 3) + "e"
         else:
             nofs = 1
-        ops.append("S/%d/%s/%s/%s/%d" % (inp, sched, cb, stk, nofs))
+        # now and then the caller keeps ITS iterator object for the next scan (last_error not reset) ...
+        # (never while a suspended scan is pending: that would be a resumption with a swapped iterator)
+        prev = ops[-1].split("/") if ops else None
+        kind = "R" if prev and ((prev[0] == "P" and prev[1] == "c") or (prev[0] in "SR" and "n" not in prev[2])) and r.random() < 0.25 else "S"
+        ops.append("%s/%d/%s/%s/%s/%d" % (kind, inp, sched, cb, stk, nofs))
+        # ... in particular after a scan in which every block request of rule evaluation was answered "not ready" (F27: the scan
+        # succeeds, last_error stays ERROR_BLOCK_NOT_READY): nothing of it may reach the next scan of OTHER data
+        if r.random() < 0.15:
+            j = r.randrange(len(inputs)); nbj = len(inputs[j].parts)
+            ops.append("S/%d/%s/-/-/0" % (j, "." * (nbj + 1) + "n" * 40))
+            others = [i for i in range(len(inputs)) if inputs[i].data != inputs[j].data] or [j]
+            ops.append("R/%d/-/%s/-/0" % (r.choice(others), r.choice(["-", "-", "a3"])))
         nn = sched.count("n")
         if nn:
             v = r.random()
@@ -319,7 +330,7 @@ def classify(line, main, ref):
     sig = {"abandoned_before": False}
     last = None
     for i, (o, m) in enumerate(zip(ops, main)):
-        if o.startswith("S") and last == "rc=BLOCK_NOT_READY":
+        if o[0] in "SR" and last == "rc=BLOCK_NOT_READY":
             sig["abandoned_before"] = True
         if m != "skip":
             last = m.rsplit(",", 1)[-1]
@@ -475,6 +486,8 @@ def run_body(chk, lres, b, tier, replay):
                 if p[0] == "C":
                     kinds["resume_call"] = kinds.get("resume_call", 0) + 1
                 else:
+                    if p[0] == "R": kinds["reused_iterator_object"] = kinds.get("reused_iterator_object", 0) + 1
+                    if p[2].endswith("n" * 40): kinds["not_ready_throughout_evaluation"] = kinds.get("not_ready_throughout_evaluation", 0) + 1
                     if p[3] != "-": kinds["cb_abort_or_error"] = kinds.get("cb_abort_or_error", 0) + 1
                     if "S" in p[2] or "s" in p[2]: kinds["stall"] = kinds.get("stall", 0) + 1
                     if p[4] == "1": kinds["tiny_stack"] = kinds.get("tiny_stack", 0) + 1
